@@ -487,16 +487,17 @@ fn judge_health(prop: &str, h: &History, trace: &Trace, out: &mut Vec<Violation>
 pub fn judge_c14(_ctx: &Ctx, h: &History, trace: &Trace) -> Vec<Violation> {
     let mut out = Vec::new();
     judge_health("C14", h, trace, &mut out);
-    let mut first: BTreeMap<String, (usize, usize, &Answer)> = BTreeMap::new();
+    // sessions of one build are compared with each other (another build ships other data)
+    let mut first: BTreeMap<(u8, String), (usize, usize, &Answer)> = BTreeMap::new();
     let mut bad: BTreeMap<String, (usize, String)> = BTreeMap::new();
     for (i, so) in trace.steps.iter().enumerate() {
         let Some(c) = &so.child else { continue };
         for e in &c.events {
             let Event::Answers { slot, answers, .. } = e else { continue };
             for a in answers {
-                match first.get(&a.q) {
+                match first.get(&(so.build, a.q.clone())) {
                     None => {
-                        first.insert(a.q.clone(), (i, *slot, a));
+                        first.insert((so.build, a.q.clone()), (i, *slot, a));
                     }
                     Some((fi, fslot, fa)) => {
                         if !same_answer(fa, a) && !bad.contains_key(&a.q) {
